@@ -132,3 +132,179 @@ def abstract_text(s):
         return Obj(models.JsonText, {"value": json.loads(s)})
     except ValueError:
         return Obj(models.NotJsonText, {})
+
+
+# ---------------------------------------------------------------------------------------------------------------
+# Loop rule for iteration over an event source whose observable behaviour is a *trace* (ghost effect log):
+# `async for message in websocket`, `async for item in generator`.
+#
+# The iterable is an Obj whose class has __pyvc_for__ = traced_for and attrs
+#     xs      : z3 VL term, the items the source will deliver
+#     events  : python callable rest(VL) -> VL term: the events the statement prescribes for the remaining items
+#     final   : optional python callable rest(VL) -> Val term: the prescribed terminal outcome for the remaining items
+#               (VNone: normal end), `final_closed`: its value once the source was closed by the client
+#     elem    : optional callable (I, x) assuming the shape facts of an arbitrary item
+#     closed  : bool, set by the stand-in's close(): iteration ends after the current item
+#     events_step / final_step : optional callables (x, rest') -> the definition bodies instantiated at x::rest'
+#
+# Invariant (suffix form, cut at the loop head), with L the events logged since the loop was entered:
+#     L ++ (closed ? [] : events(rest)) == events(xs)      and      (closed ? final_closed : final(rest)) == final(xs)
+# init: L = [], rest = xs, not closed (trivial); step: arbitrary item x, rest = x::rest', body run once, the events it
+# logged appended to L, invariant for rest'; exit: rest = [] or closed, so L == events(xs) and final(xs) == end value.
+# An exception escaping the body leaves the log as [.. L, events of this iteration]; the contract's on_raise clauses are
+# evaluated under the invariant assumed for x::rest'.  The two list lemmas used (valid by induction on L):
+#     L ++ [] == L           (L ++ [e]) ++ Z == L ++ (e :: Z)
+def traced_for(I, st, it, env, module):
+    import z3
+    from pyvc.interp import PathAbort, Unsupported, _Break, _Continue
+    p = I.p
+    o = it
+    xs = o.attrs["xs"]
+    ev = o.attrs["events"]
+    fin = o.attrs.get("final")
+    fin_closed = o.attrs.get("final_closed", V.VNone)
+    if o.attrs.get("closed", False) is not False:
+        raise Unsupported("iteration over an event source that is already closed")
+    fnq = env.lookup("__fn__").qualname if env.has("__fn__") else "?"
+    label = f"inv@{fnq.split('.')[-1]}:{st.lineno}"
+    s_all = ev(xs)
+    start = len(p.effects)
+    # init: [] ++ events(xs) == events(xs) holds by definition of ++; recorded so that the obligation is counted
+    p.oblige(f"{label}.init", V.vl_concat(V.VNil, s_all) == s_all, "inv-init")
+    p.counter += 1
+    which = z3.Bool(f"loop!{p.counter}!iteration")
+    L = p.fresh("log", V.VL)
+    V.LEMMAS.append(V.vl_concat(L, V.VNil) == L)
+    # program state the body may change is arbitrary at the head of an arbitrary iteration and after the loop (no
+    # invariant is offered for it: the trace invariant must hold whatever it is)
+    mod = sorted(models._mutated_paths(st.body) - {(n,) for n in models._target_names(st.target)})
+    if p.branch(which, f"loop@{st.lineno}:arbitrary-iteration"):
+        for pth in mod:
+            models._havoc(I, env, pth, "loopvar")
+        x = p.fresh("item")
+        rest1 = p.fresh("rest", V.VL)
+        if o.attrs.get("elem"):
+            o.attrs["elem"](I, x)
+        p.assume(V.vcontains(xs, x))
+        rest = V.VCons(x, rest1)
+        del p.effects[start:]
+        p.effects.append(("__prefix__", L))
+        p.assume(V.vl_concat(L, ev(rest)) == s_all)
+        if fin is not None:
+            p.assume(fin(rest) == fin(xs))
+        # one explicit unfolding of the recursive spec functions at x::rest' (an instance of their definitions; z3 does
+        # not always unfold far enough by itself and then answers with a model that falsifies the assumption)
+        if o.attrs.get("events_step"):
+            p.assume(ev(rest) == o.attrs["events_step"](x, rest1))
+        if fin is not None and o.attrs.get("final_step"):
+            p.assume(fin(rest) == o.attrs["final_step"](x, rest1))
+        I.assign_target(st.target, SV(x), env, module)
+        try:
+            I.exec_block(st.body, env, module)
+        except _Continue:
+            pass
+        except _Break:
+            raise Unsupported("break inside a traced loop")
+        closed = o.attrs.get("closed", False)
+        if not isinstance(closed, bool):
+            raise Unsupported("symbolic closed flag")
+        tail = V.VNil if closed else ev(rest1)
+        events = [event_term(k, v) for k, v in p.effects[start + 1:] if k in TRACE_KINDS]
+        cur = L
+        for i, e in enumerate(events):
+            z = tail
+            for e2 in reversed(events[i + 1:]):
+                z = V.VCons(e2, z)
+            nxt = V.vl_concat(cur, V.VCons(e, V.VNil))
+            V.LEMMAS.append(V.vl_concat(nxt, z) == V.vl_concat(cur, V.VCons(e, z)))
+            cur = nxt
+        p.oblige(f"{label}.step", V.vl_concat(cur, tail) == s_all, "inv-step")
+        if fin is not None:
+            p.oblige(f"{label}.step-final", (fin_closed if closed else fin(rest1)) == fin(xs), "inv-step")
+        raise PathAbort()
+    for pth in mod:
+        models._havoc(I, env, pth, "loopout")
+    del p.effects[start:]
+    p.effects.append(("__prefix__", L))
+    p.assume(L == s_all)
+    if fin is not None:
+        p.assume(z3.Or(fin(V.VNil) == fin(xs), fin_closed == fin(xs)))
+    o.attrs["closed"] = True
+    I.exec_block(st.orelse, env, module)
+    return True
+
+
+TRACE_KINDS = ("ws_send", "ws_close", "yield")
+
+
+def event_term(kind, payload):
+    return V.VTuple(V.vlist([V.VStr(V.S(kind)), V.lower(payload)]))
+
+
+def trace_term(effects, kinds=TRACE_KINDS):
+    """the ghost effect log of a path as a VL term; a ("__prefix__", L) entry stands for the events of the loop
+    iterations before the current one"""
+    cur = None          # VL term built so far (left to right)
+    items = []
+    for kind, payload in effects:
+        if kind == "__prefix__":
+            base = payload
+            for e in reversed(items):
+                base = V.VCons(e, base)
+            if cur is not None:
+                raise ValueError("two loop prefixes in one log")
+            cur = ("open", items, payload)
+            items = []
+        elif kind in kinds:
+            items.append(event_term(kind, payload))
+    if cur is None:
+        return V.vlist(items)
+    _, head, L = cur
+    t = L
+    for e in items:
+        t = V.vl_concat(t, V.VCons(e, V.VNil))
+    for e in reversed(head):
+        t = V.VCons(e, t)
+    return t
+
+
+class TracedSource:
+    """generic event source (e.g. the async generator returned by a callee stand-in)"""
+    __pyvc_for__ = staticmethod(traced_for)
+
+
+V.REG.register(TracedSource, [])
+FakeWS.__pyvc_for__ = staticmethod(traced_for)
+
+
+class FakeWSConnect:
+    """`ws_connect(url, **kwargs)` stand-in: entering the context yields the scripted connection"""
+
+    @staticmethod
+    def __pyvc_enter__(I, cm):
+        return cm.attrs["ws"]
+
+
+V.REG.register(FakeWSConnect, [])
+
+
+def install_ws_connect(module, ws_of):
+    """model of the module-level `ws_connect` / `Subprotocol` / `uuid4` names of a bundled async client.
+    ws_of(I) -> the FakeWS of the current path"""
+    import z3
+    from pyvc.val import MDict
+
+    def connect(I, a, k):
+        kw = dict(k)
+        splat = kw.pop("__splat__", None)
+        if len(a) != 1:
+            from pyvc.interp import Unsupported
+            raise Unsupported("ws_connect positional arguments")
+        m = MDict(V.lower(splat)) if splat is not None else MDict(V.lower({}))
+        for key, v in kw.items():
+            m.t = V.VDict(V.d_set(V.vd(m.t), V.lower(key), V.lower(v)))
+        m.t = V.VDict(V.d_set(V.vd(m.t), V.lower("__url__"), V.lower(a[0])))
+        I.p.effect("ws_connect", m.t)
+        return Obj(FakeWSConnect, {"ws": ws_of(I)})
+    models.NATIVE[module.ws_connect] = connect
+    models.NATIVE[module.uuid4] = lambda I, a, k: SV(V.VStr(z3.String("operation_uuid")))
